@@ -188,175 +188,62 @@ def run(ctx):
 
 
 def world(ctx, rnd, T):
-    import opticomlib.devices as dv
-    import opticomlib.ppm as ppm
-    import opticomlib.ook as ook
-    import opticomlib.utils as ut
-    from opticomlib.typing import gv, binary_sequence, electrical_signal, optical_signal, eye
-
+    import subprocess, sys, os
+    from .. import world_lib as wl
+    from ..core import VERIF
+    dv, ppm, ook, ut, gv, binary_sequence, electrical_signal, optical_signal, eye = wl.load()
     intern = {}
 
     def iid(s):
         return intern.setdefault(s, len(intern) + 1)
 
-    def arrays_of(x, acc):
-        if isinstance(x, np.ndarray):
-            acc.append(x)
-        elif isinstance(x, (electrical_signal,)):
-            acc.append(x.signal)
-            if x.noise is not None:
-                acc.append(x.noise)
-        elif isinstance(x, binary_sequence):
-            acc.append(x.data)
-        elif isinstance(x, eye):
-            for v in vars(x).values():
-                arrays_of(v, acc)
-        elif isinstance(x, (list, tuple)):
-            for v in x:
-                arrays_of(v, acc)
-        elif isinstance(x, dict):
-            for v in x.values():
-                arrays_of(v, acc)
-        return acc
-
-    def dig(x):
-        h = hashlib.sha1()
-        def upd(v):
-            if isinstance(v, np.ndarray):
-                h.update(str((v.dtype, v.shape)).encode()); h.update(np.ascontiguousarray(v).tobytes())
-            elif isinstance(v, electrical_signal):
-                h.update(type(v).__name__.encode()); h.update(str(getattr(v, "n_pol", None)).encode()); upd(v.signal); upd(v.noise)
-            elif isinstance(v, binary_sequence):
-                h.update(b"bs"); upd(v.data)
-            elif isinstance(v, eye):
-                for k in sorted(vars(v)):
-                    if k != "execution_time":
-                        h.update(k.encode()); upd(getattr(v, k))
-            elif isinstance(v, (list, tuple)):
-                h.update(b"seq"); [upd(i) for i in v]
-            elif isinstance(v, dict):
-                for k in sorted(v):
-                    h.update(str(k).encode()); upd(v[k])
-            else:
-                h.update(repr(v).encode())
-        upd(x)
-        return h.hexdigest()
-
-    def gv_digest():
-        return iid("gv" + dig({k: v for k, v in vars(gv).items()}))
-
-    def rng_digest():
-        st = np.random.get_state()
-        return iid("rng" + dig([st[1], st[2], st[3], st[4]]))
-
-    def protect(x):
-        for a in arrays_of(x, []):
-            a.flags.writeable = False
-        return x
-
-    # shared inputs (rebuilt for each gv configuration)
-    def inputs():
-        sps = gv.sps
-        bits = protect(dv.PRBS(7, 64))
-        x = protect(dv.DAC(bits, Vout=2.0, bias=0.5))
-        t = protect(np.arange(64 * sps) * gv.dt)
-        rs = np.random.RandomState(5)
-        fld = (rs.randn(64 * sps) + 1j * rs.randn(64 * sps)) * 0.03
-        o1 = protect(optical_signal(0.05 * np.exp(1j * 0.3 * np.arange(64 * sps) / sps) + 0 * fld, 0.1 * fld))
-        o2 = protect(optical_signal(np.array([0.04 + fld, 0.5 * fld + 0.02j]), np.array([0.1 * fld, 0.05 * fld.conj()])))
-        mod = protect(dv.MZM(optical_signal(np.ones(64 * sps) * 0.03), x, bias=2.5, Vpi=5.0))
-        np.random.seed(11)
-        rx = protect(electrical_signal(x.signal * 0.01, 2e-4 * np.random.randn(64 * sps)))
-        ppmbits = protect(ppm.PPM_ENCODER(bits, 4))
-        ppmwave = protect(dv.DAC(ppmbits))
-        slots = protect(binary_sequence(np.random.RandomState(3).randint(0, 2, 64)))
-        ey = dv.GET_EYE(rx, sps_resamp=32)
-        return dict(bits=bits, x=x, t=t, o1=o1, o2=o2, mod=mod, rx=rx, ppmbits=ppmbits, ppmwave=ppmwave, slots=slots, eye=ey)
-
-    F = {  # name -> (args builder, callable, weight)
-        "PRBS": (lambda I: (9, 100, 5), lambda a: dv.PRBS(*a), 3),
-        "DAC-nrz": (lambda I: (I["bits"],), lambda a: dv.DAC(a[0], 0.1, 1.5, "nrz"), 3),
-        "DAC-gauss": (lambda I: (I["bits"],), lambda a: dv.DAC(a[0], 0.0, 1.0, "gaussian", m=2), 2),
-        "DAC-bw": (lambda I: (I["bits"],), lambda a: dv.DAC(a[0], BW=0.75 * gv.R), 2),
-        "LASER-cw": (lambda I: (I["t"],), lambda a: dv.LASER(a[0], 3.0, df=0.1 * gv.R), 2),
-        "LASER-noisy": (lambda I: (I["t"],), lambda a: dv.LASER(a[0], 3.0, lw=1e6, rin=-150), 2),
-        "PM": (lambda I: (I["o1"], I["x"].signal), lambda a: dv.PM(a[0], a[1], 4.0), 2),
-        "MZM": (lambda I: (I["o2"], I["x"]), lambda a: dv.MZM(a[0], a[1], bias=1.0, Vpi=4.0, loss_dB=2, ER_dB=20, pol="y"), 3),
-        "MZM-bw": (lambda I: (I["o1"], I["x"]), lambda a: dv.MZM(a[0], a[1], BW=2 * gv.R), 1),
-        "BPF": (lambda I: (I["o2"],), lambda a: dv.BPF(a[0], 1.5 * gv.R), 2),
-        "EDFA": (lambda I: (I["o1"],), lambda a: dv.EDFA(a[0], 20, 5), 3),
-        "EDFA-bw": (lambda I: (I["o2"],), lambda a: dv.EDFA(a[0], 15, 4, BW=3 * gv.R), 1),
-        "DM": (lambda I: (I["o2"],), lambda a: dv.DM(a[0], 30.0), 2),
-        "DM-retH": (lambda I: (I["o1"],), lambda a: dv.DM(a[0], -20.0, True), 1),
-        "FIBER-lin": (lambda I: (I["o2"],), lambda a: dv.FIBER(a[0], 10, 0.2, -20, 0.1, 0), 2),
-        "FIBER-nl": (lambda I: (I["o2"],), lambda a: dv.FIBER(a[0], 5, 0.2, -20, 0.0, 2.0, 0.05), 1),
-        "LPF": (lambda I: (I["rx"],), lambda a: dv.LPF(a[0], 0.7 * gv.R), 2),
-        "LPF-array": (lambda I: (I["rx"].signal,), lambda a: dv.LPF(a[0], 0.7 * gv.R, retH=True), 1),
-        "PD-all": (lambda I: (I["mod"],), lambda a: dv.PD(a[0], gv.R), 3),
-        "PD-ase": (lambda I: (I["o2"],), lambda a: dv.PD(a[0], gv.R, include_noise="ase-only"), 2),
-        "ADC": (lambda I: (I["rx"],), lambda a: dv.ADC(a[0], n=4), 2),
-        "GET_EYE": (lambda I: (I["rx"],), lambda a: dv.GET_EYE(a[0], sps_resamp=32), 1),
-        "SAMPLER": (lambda I: (I["rx"],), lambda a: dv.SAMPLER(a[0], gv.sps // 2), 2),
-        "PPM_ENCODER": (lambda I: (I["bits"],), lambda a: ppm.PPM_ENCODER(a[0], 8), 2),
-        "PPM_DECODER": (lambda I: (I["ppmbits"],), lambda a: ppm.PPM_DECODER(a[0], 4), 2),
-        "HDD": (lambda I: (I["slots"],), lambda a: ppm.HDD(a[0], 4), 3),
-        "SDD": (lambda I: (I["ppmwave"],), lambda a: ppm.SDD(a[0], 4), 2),
-        "ppm.DSP-soft": (lambda I: (I["ppmwave"],), lambda a: ppm.DSP(a[0], 4, "soft"), 1),
-        "ppm.DSP-hard": (lambda I: (I["ppmwave"],), lambda a: ppm.DSP(a[0], 4, "hard", threshold=0.5), 1),
-        "ook.THRESHOLD_EST": (lambda I: (I["eye"],), lambda a: ook.THRESHOLD_EST(a[0]), 1),
-        "ppm.THRESHOLD_EST": (lambda I: (I["eye"],), lambda a: ppm.THRESHOLD_EST(a[0], 4), 1),
-        "ook.BER_counter": (lambda I: (I["bits"], I["slots"]), lambda a: ook.BER_analizer("counter", Tx=a[0], Rx=a[1]), 1),
-        "ppm.BER_estimator": (lambda I: (I["eye"],), lambda a: ppm.BER_analizer("estimator", eye_obj=a[0], M=4), 1),
-        "ook.theory_BER": (lambda I: (np.array([1.0, 2.0]),), lambda a: ook.theory_BER(a[0], 0.1, 0.2), 1),
-        "utils.mix": (lambda I: (I["rx"].signal,), lambda a: [ut.db(np.abs(a[0]) + 1), ut.Q(a[0]), ut.shortest_int(a[0], 50), ut.dec2bin(5, 4), ut.str2array("1,2;3,4")], 2),
-        "utils.noise_variances": (lambda I: (-20.0,), lambda a: ut.noise_variances(a[0], "ppm", 4, 10, True, 1550e-9, 20, 5, 50e9), 1),
-    }
-    RANDOM = {"LASER-noisy", "EDFA", "EDFA-bw", "PD-all", "HDD", "GET_EYE"}
+    F, RANDOM = wl.funcs()
     det = sorted(set(F) - RANDOM)
     names = [n for n, v in F.items() for _ in range(v[2])]
-    ntr, nlen = (12, 250) if T else (3, 110)
+    ntr, nlen = (12, 250) if T else (3, 120)
     for tr in range(ntr):
-        gv.clean()
+        cfg = (rnd.choice([8, 16]), rnd.choice([1e9, 2.5e9]), None)
+        wl.configure(*cfg)
         with warnings.catch_warnings():
             warnings.simplefilter("ignore")
-            gv(sps=rnd.choice([8, 16]), R=rnd.choice([1e9, 2.5e9]))
-            I = inputs()
+            I = wl.inputs()
         np.random.seed(rnd.randrange(1000))
-        trace = []
-        recent = []
+        trace, requests, recent = [], [], []
         for step in range(nlen):
-            gb, rb = gv_digest(), rng_digest()
+            gb, rb = iid(wl.gv_raw()), iid(wl.rng_raw())
             u = rnd.random()
-            if u < 0.12:
-                s = rnd.choice([0, 1, 2])
-                np.random.seed(s)
-                trace.append({"kind": "seed", "f": f"seed{s}", "args": 0, "argsAfter": 0, "gvBefore": gb, "gvAfter": gv_digest(),
-                              "rngBefore": rb, "rngAfter": rng_digest(), "res": 0, "alias": False})
-                continue
-            if u < 0.16:
+            if u < 0.14:
+                cfg = (rnd.choice([8, 16]), rnd.choice([1e9, 2.5e9]), rnd.choice([None, 64]))
+                rs = np.random.get_state()
+                wl.configure(*cfg)
                 with warnings.catch_warnings():
                     warnings.simplefilter("ignore")
-                    gv(sps=rnd.choice([8, 16]), R=rnd.choice([1e9, 2.5e9]), N=rnd.choice([None, 64]))
-                    rs = np.random.get_state()
-                    I = inputs()                      # inputs follow the grid; built outside the monitored history
-                    np.random.set_state(rs)
-                trace.append({"kind": "gv", "f": "gv", "args": 0, "argsAfter": 0, "gvBefore": gb, "gvAfter": gv_digest(),
-                              "rngBefore": rb, "rngAfter": rng_digest(), "res": 0, "alias": False})
+                    I = wl.inputs()                   # inputs follow the grid; built outside the monitored history
+                np.random.set_state(rs)
+                trace.append({"kind": "gv", "f": "gv", "args": 0, "argsAfter": 0, "gvBefore": gb, "gvAfter": iid(wl.gv_raw()),
+                              "rngBefore": rb, "rngAfter": iid(wl.rng_raw()), "res": 0, "alias": False})
                 continue
+            reseed = u < 0.45
+            if reseed:
+                s = rnd.choice([0, 1, 2])
+                np.random.seed(s)
+                trace.append({"kind": "seed", "f": f"seed{s}", "args": 0, "argsAfter": 0, "gvBefore": gb, "gvAfter": iid(wl.gv_raw()),
+                              "rngBefore": rb, "rngAfter": iid(wl.rng_raw()), "res": 0, "alias": False})
+                gb, rb = iid(wl.gv_raw()), iid(wl.rng_raw())
             name = rnd.choice(recent) if (recent and rnd.random() < 0.3) else rnd.choice(names)
             recent = (recent + [name])[-6:]
             build, fn, _ = F[name]
             args = build(I)
-            akey = iid("a" + dig(args))
+            akey = iid("a" + wl.dig(args))
             alias = False
             try:
                 with warnings.catch_warnings():
                     warnings.simplefilter("ignore")
                     with deadline(120):
                         res = fn(args)
-                rkey = iid("r" + dig(res))
-                ina = arrays_of(args, [])
-                alias = any(np.shares_memory(x, y) for x in arrays_of(res, []) for y in ina)
+                rkey = iid("r" + wl.dig(res))
+                ina = wl.arrays_of(args, [])
+                alias = any(np.shares_memory(x, y) for x in wl.arrays_of(res, []) for y in ina)
             except Deadline:
                 ctx.violation(f"world:{name}:hang", "call did not return within 120 s", {"function": name})
                 continue
@@ -367,9 +254,33 @@ def world(ctx, rnd, T):
                 rkey = iid("exc" + type(e).__name__)
             except Exception as e:
                 rkey = iid("exc" + type(e).__name__ + str(e)[:80])
-            trace.append({"kind": "invoke", "f": name, "args": akey, "argsAfter": iid("a" + dig(args)), "gvBefore": gb, "gvAfter": gv_digest(),
-                          "rngBefore": rb, "rngAfter": rng_digest(), "res": rkey, "alias": bool(alias)})
+            trace.append({"kind": "invoke", "f": name, "args": akey, "argsAfter": iid("a" + wl.dig(args)), "gvBefore": gb, "gvAfter": iid(wl.gv_raw()),
+                          "rngBefore": rb, "rngAfter": iid(wl.rng_raw()), "res": rkey, "alias": bool(alias)})
+            if reseed:
+                requests.append({"name": name, "sps": cfg[0], "R": cfg[1], "N": cfg[2], "seed": s})
             ctx.case(("world", name, "rand" if name in RANDOM else "det"), {"call": name, "gv": [gv.sps, gv.R]} if tr == 0 else None)
+        # the same calls once more in a FRESH interpreter (no call history), in another order: "deterministic blocks give
+        # identical results whatever was called before"; the events join the same trace after a boundary marker, so a
+        # different result for the same (function, arguments, gv[, RNG state]) is a memo conflict in WorldTrace
+        rnd.shuffle(requests)
+        requests = requests[: (60 if T else 40)]
+        rq, ro = ctx.newfile("world_req", "json"), ctx.newfile("world_fresh", "json")
+        json.dump(requests, open(rq, "w"))
+        env = dict(os.environ, PYTHONPATH=VERIF)
+        p = subprocess.run([sys.executable, "-m", "harness.world_worker", rq, ro], cwd=VERIF, env=env, stdout=subprocess.PIPE,
+                           stderr=subprocess.STDOUT, text=True, timeout=1800)
+        if p.returncode != 0 or not os.path.exists(ro):
+            raise MachineryError("fresh-process worker failed: " + p.stdout[-1500:])
+        fresh = json.load(open(ro))
+        trace.append({"kind": "boundary", "f": "fresh-interpreter", "args": 0, "argsAfter": 0, "gvBefore": 0, "gvAfter": 0, "rngBefore": 0,
+                      "rngAfter": 0, "res": 0, "alias": False})
+        for e in fresh:
+            trace.append({"kind": "boundary", "f": "fresh-call-setup", "args": 0, "argsAfter": 0, "gvBefore": 0, "gvAfter": iid(e["gvBefore"]),
+                          "rngBefore": 0, "rngAfter": iid(e["rngBefore"]), "res": 0, "alias": False})
+            trace.append({"kind": "invoke", "f": e["name"], "args": iid(e["args"]), "argsAfter": iid(e["argsAfter"]), "gvBefore": iid(e["gvBefore"]),
+                          "gvAfter": iid(e["gvAfter"]), "rngBefore": iid(e["rngBefore"]), "rngAfter": iid(e["rngAfter"]),
+                          "res": iid(e["res"]) if not e["res"].startswith("excValueError") else iid("excValueError"), "alias": False})
+            ctx.case(("world-fresh", e["name"]))
         meta = ctx.newfile("world_meta", "json")
         json.dump({"deterministic": det}, open(meta, "w"))
         f = ctx.newfile("world", "ndjson")
@@ -389,4 +300,5 @@ def world(ctx, rnd, T):
             ctx.violation(f"world:{e['f']}:{clause}", f"event {idx} ({e['f']}) breaks {clause}", {"event": e, "index": idx})
     gv.clean()
     ctx.assumptions.append("world histories: digests (sha1 of dtype/shape/bytes) are interned to integers by the harness; "
-                           "execution_time, the warnings filter and the tic/toc stack are outside the property and excluded")
+                           "execution_time, the warnings filter and the tic/toc stack are outside the property and excluded; "
+                           "re-seeded calls are repeated in a fresh interpreter and judged by the same memo")
